@@ -160,6 +160,7 @@ type Item struct {
 	Query  string
 	Args   map[string]string
 	CoqReq string
+	DataQ  bool // a request to the data query service (CoqReq is already wrapped in DQ)
 	Paged  bool // takes a PageRequest
 	List   bool // returns a list (paged or not)
 	// Present tells whether the filter argument refers to something in the state
